@@ -20,6 +20,9 @@ def run(ctx, rep):
     moves_common.run_gram_moves(ctx, rep, ctx.n(30, 300))
     from . import mt_path
     mt_path.run_mt_path(ctx, rep)
+    mt_path.run_mt_warm(ctx, rep)
+    from . import moves_common as _mc
+    _mc.run_pdcd_solve(ctx, rep)
 
 
 def replay(ctx, payload):
